@@ -126,7 +126,7 @@ def simulate(chk, specdir, module, cfg, num, depth, seed, workers=4, timeout=300
     # TLC writes one file per trace and worker: num is per worker
     per = max(1, (num + workers - 1) // workers)
     r = vlib.tlc(specdir, module, cfg, workers=workers, simulate="num=%d,file=sim" % per, depth=depth, seed=seed,
-                 timeout=timeout, keep_prints=False)
+                 timeout=timeout, keep_prints=False, heap="2g")
     chk.add_tlc(r)
     if r.error:
         raise vlib.Inconclusive("simulation of %s/%s found a violation IN THE MODEL (%s); the specification is wrong or "
@@ -545,8 +545,9 @@ def _validate_shard(specdir, module, cfg, shard, timeout, max_bad=3):
                 lines.append('{"ev":"reset"}')
             starts.append(len(lines) + 1)
             lines += _trace_lines(res)
+        # small heap: up to eight of these JVMs run at once next to model checking (the default is a quarter of the RAM each)
         r = vlib.tlc(specdir, module, cfg, workers=1, timeout=timeout, files={"trace.ndjson": ("\n".join(lines) + "\n").encode()},
-                     keep_prints=False)
+                     keep_prints=False, heap="3g")
         tlc_results.append(r)
         if r.error is None:
             accepted += len(todo)
